@@ -298,7 +298,7 @@ def handle (f : Fields) : String :=
   | "sevpolicy" =>
     let o : SevPolicyOptions := ⟨parseSevBase (f.get "base"), f.nat "vmsas", f.bool "ow", f.bool "allow"⟩
     cls (sevPolicy P main.endorsement (some o)) fun p =>
-      s!"pol={p.policy} m=" ++ (match p.measurement with | some m => showCb m | none => "nil") ++ " " ++
+      s!"pol={p.policy} m=" ++ (match p.measurement with | some m => (if m.isEmpty then "nil" else showCb m) | none => "nil") ++ " " ++
       s!"idk={p.trustedIdKeys.length}:{lastLen p.trustedIdKeys} ak={p.trustedAuthorKeys.length}:{lastLen p.trustedAuthorKeys}"
   | "tdxpolicy" =>
     let o : TdxPolicyOptions := ⟨parseTdxBase (f.get "base"), f.int "ram", f.bool "ow"⟩
